@@ -465,23 +465,27 @@ def lit_of(v, at=None):
     return ast.copy_location(c, at) if at is not None else c
 
 
+NP_COMPARE = {"less": ast.Lt, "less_equal": ast.LtE, "greater": ast.Gt, "greater_equal": ast.GtE, "equal": ast.Eq, "not_equal": ast.NotEq}
+
 RO_DICT_METHODS = {"get", "items", "keys", "values", "copy"}
 RO_DICT_CALLS = {"dict", "len", "list", "sorted", "tuple", "set", "frozenset", "enumerate", "iter", "reversed", "zip"}
 
 
-def const_dict_lit(val):
+def const_dict_lit(val, fnames=()):
     """{"k": <literal>, ..} / dict(k=<literal>, ..) with string keys and constant values, as a Dict display; else None"""
     if isinstance(val, ast.Call) and isinstance(val.func, ast.Name) and val.func.id == "dict" and not val.args and val.keywords \
             and all(k.arg is not None and is_const_lit(k.value) for k in val.keywords):
         d = ast.Dict(keys=[ast.copy_location(ast.Constant(value=k.arg), val) for k in val.keywords], values=[k.value for k in val.keywords])
         return ast.copy_location(d, val)
-    if isinstance(val, ast.Dict) and val.keys and all(k is not None and const_key(k) for k in val.keys) and all(is_const_lit(v) or closed_lambda(v) for v in val.values):
+    if isinstance(val, ast.Dict) and val.keys and all(k is not None and const_key(k) for k in val.keys) \
+            and all(is_const_lit(v) or closed_lambda(v) or (isinstance(v, ast.Name) and v.id in fnames) for v in val.values):
         return val
     return None
 
 
-def closed_lambda(v):
-    """a lambda with plain positional parameters whose body reads its parameters, constants and dotted library names (np.x) only"""
+def closed_lambda(v, stable=None):
+    """a lambda with plain positional parameters whose body reads its parameters, constants and dotted library names (np.x) only
+    (plus, with `stable`, names that are never re-bound where it is applied: self, module-level functions)"""
     if not isinstance(v, ast.Lambda):
         return False
     a = v.args
@@ -492,7 +496,8 @@ def closed_lambda(v):
         if isinstance(n, (ast.Lambda, ast.NamedExpr, ast.Yield, ast.YieldFrom, ast.Await, ast.ListComp, ast.SetComp, ast.DictComp, ast.GeneratorExp)):
             return False
         if isinstance(n, ast.Name) and n.id not in ps and n.id not in ("np", "numpy", "signal", "scipy", "math", "True", "False", "None", "int", "float", "len", "abs", "min", "max"):
-            return False
+            if stable is None or not stable(n.id):
+                return False
     return True
 
 
@@ -595,10 +600,10 @@ class ModTab:
                             self.consts[tg] = ast.fix_missing_locations(lit_of(v_, val))
                     except (NotConst, RecursionError):
                         pass
-                elif const_dict_lit(val) is not None and n in tree.body:
+                elif const_dict_lit(val, self._fnames(tree)) is not None and n in tree.body:
                     # a table that is only ever read (handing it to a function, storing into it, returning it: not a constant)
                     if read_only_refs(tree, lambda r, tg=tg: isinstance(r, ast.Name) and r.id == tg and isinstance(r.ctx, ast.Load)):
-                        self.consts[tg] = const_dict_lit(val)
+                        self.consts[tg] = const_dict_lit(val, self._fnames(tree))
                         self.dict_consts = getattr(self, "dict_consts", set()) | {tg}
         for n in ast.walk(tree):
             if isinstance(n, ast.Global):
@@ -614,6 +619,28 @@ class ModTab:
         for k in list(self.consts):
             if seen.get(k, 0) != 1 or stores.get(k, 0) != 1 or k == "__all__":
                 del self.consts[k]
+
+    def imports(self):
+        """names bound by import statements at module level (np, signal, gen, ...)"""
+        if not hasattr(self, "_imports"):
+            self._imports = set()
+            for n in self.tree.body:
+                if isinstance(n, (ast.Import, ast.ImportFrom)):
+                    for a in n.names:
+                        self._imports.add((a.asname or a.name).split(".")[0])
+        return self._imports
+
+    def _fnames(self, tree):
+        """module-level functions bound exactly once (a dispatch table may name them)"""
+        if not hasattr(self, "_fn_names"):
+            cnt = {}
+            for n in ast.walk(tree):
+                if isinstance(n, (ast.FunctionDef, ast.AsyncFunctionDef, ast.ClassDef)):
+                    cnt[n.name] = cnt.get(n.name, 0) + 1
+                elif isinstance(n, ast.Name) and isinstance(n.ctx, (ast.Store, ast.Del)):
+                    cnt[n.id] = cnt.get(n.id, 0) + 1
+            self._fn_names = {n.name for n in tree.body if isinstance(n, ast.FunctionDef) and cnt.get(n.name) == 1}
+        return self._fn_names
 
     def fresh(self, base):
         self.counter += 1
@@ -764,6 +791,29 @@ class Desugar:
                         found = None
         cache[key] = found
         return found
+
+    def plain_setter(self, mname):
+        """the attribute a method called `mname` stores its only argument into, when exactly one class of the program defines a method of
+        that name and its body is `self.<attr> = <parameter>` (+ `return self` / `return None`); else None"""
+        cache = self.__dict__.setdefault("_setters", {})
+        if mname in cache:
+            return cache[mname]
+        defs = [n for c in self.all_classes for n in c.body if isinstance(n, ast.FunctionDef) and n.name == mname]
+        out = None
+        if len(defs) == 1 and not defs[0].decorator_list:
+            fn = defs[0]
+            a = fn.args
+            pos = [x.arg for x in a.posonlyargs + a.args]
+            body = [b for b in fn.body if not (isinstance(b, ast.Expr) and isinstance(b.value, ast.Constant))]
+            if len(pos) == 2 and not (a.vararg or a.kwarg or a.kwonlyargs or a.defaults) and body \
+                    and isinstance(body[0], ast.Assign) and len(body[0].targets) == 1 and isinstance(body[0].targets[0], ast.Attribute) \
+                    and isinstance(body[0].targets[0].value, ast.Name) and body[0].targets[0].value.id == pos[0] \
+                    and isinstance(body[0].value, ast.Name) and body[0].value.id == pos[1] \
+                    and all(isinstance(b, ast.Return) and (b.value is None or (isinstance(b.value, ast.Name) and b.value.id == pos[0]) or
+                                                           (isinstance(b.value, ast.Constant) and b.value.value is None)) for b in body[1:]) and len(body) <= 2:
+                out = body[0].targets[0].attr
+        cache[mname] = out
+        return out
 
     def _class_const_eval(self, m, cls, v):
         """value of a class-level expression over other class-level / module-level constants"""
@@ -1280,6 +1330,8 @@ class FnPE:
                     f = self.field(nm, k.value)
                     out.append(ast.copy_location(ast.Assign(targets=[name(f, ast.Store(), s)], value=v), s))
                     r.fields[k.value] = f
+                    if closed_lambda(v, lambda nm_: nm_ not in self.rebound_names() and nm_ not in self.closure_rebound()):
+                        env[f] = Con(v)         # a small function kept in a table: applied where it is looked up
                 # evaluation order / aliasing: a field value that reads an earlier field variable is fine (assigned in order)
                 env[nm] = r
                 self.stat("records")
@@ -1287,8 +1339,8 @@ class FnPE:
             if tracked and is_seq_lit(value) and (isinstance(value, ast.Tuple) or self.list_is_frozen(nm)) and len(value.elts) <= MAXUNROLL:
                 items = []
                 for i, v in enumerate(value.elts):
-                    if is_const_lit(v):
-                        items.append(v)
+                    if is_const_lit(v) or self.stable_ref(v):
+                        items.append(v)             # a literal / a module-level function or library routine: stands for itself
                         continue
                     f = self.field(nm, i)
                     a_ = ast.copy_location(ast.Assign(targets=[name(f, ast.Store(), s)], value=v), s)
@@ -1374,6 +1426,19 @@ class FnPE:
         self.stat("records")
         return ObjCopy(nm, base, fields)
 
+    def stable_ref(self, v):
+        """np.less_equal, gen.HC_damp, MPC: a dotted name rooted in a module-level name that this function never binds"""
+        root = v
+        while isinstance(root, ast.Attribute):
+            root = root.value
+        if not isinstance(root, ast.Name) or not isinstance(v, (ast.Name, ast.Attribute)):
+            return False
+        if root.id in self.locals or root.id in ("self", "cls"):
+            return False
+        if isinstance(v, ast.Name):
+            return v.id in self.m.funcs or v.id in self.m.classes
+        return root.id in self.m.imports() if hasattr(self.m, "imports") else False
+
     def store_count(self, nm):
         if not hasattr(self, "_store_counts"):
             self._store_counts = {}
@@ -1381,6 +1446,12 @@ class FnPE:
                 if isinstance(n, ast.Name) and isinstance(n.ctx, (ast.Store, ast.Del)):
                     self._store_counts[n.id] = self._store_counts.get(n.id, 0) + 1
         return self._store_counts.get(nm, 0)
+
+    def closure_rebound(self):
+        """names a nested function / lambda of this function may re-bind (nonlocal) - none in practice; parameters count as bound once"""
+        if not hasattr(self, "_clo_rebound"):
+            self._clo_rebound = {nm for n in ast.walk(self.fn) if isinstance(n, (ast.Nonlocal, ast.Global)) for nm in n.names}
+        return self._clo_rebound
 
     def rebound_names(self):
         if not hasattr(self, "_rebound"):
@@ -1499,6 +1570,15 @@ class FnPE:
                 m = copy.copy(s)
                 m.value = ast.copy_location(ast.Call(func=copy.deepcopy(f), args=[o, nm, val], keywords=[]), v)
                 return pre + [m]
+            # self.set_x(value) with a plain setter (`self.x = value; return self`) defined once in the program: the store it makes
+            if isinstance(f, ast.Attribute) and isinstance(f.value, ast.Name) and f.value.id == "self" and "self" in params_of(self.fn)[:1] \
+                    and len(v.args) + len(v.keywords) == 1 and not any(isinstance(a, ast.Starred) for a in v.args) and all(k.arg is not None for k in v.keywords):
+                attr = self.D.plain_setter(f.attr)
+                if attr is not None:
+                    arg = v.args[0] if v.args else v.keywords[0].value
+                    a = ast.Assign(targets=[ast.copy_location(ast.Attribute(value=name("self", at=s), attr=attr, ctx=ast.Store()), s)], value=arg)
+                    self.stat("folds")
+                    return self.stmt_core(ast.fix_missing_locations(ast.copy_location(a, s)), env)
             # record methods
             if isinstance(f, ast.Attribute) and isinstance(f.value, ast.Name) and isinstance(env.get(f.value.id), Rec):
                 r = env[f.value.id]
@@ -1688,6 +1768,8 @@ class FnPE:
                 stmts = []
                 for e in elems:
                     mp = None
+                    if isinstance(e, ast.Name) and isinstance(trial.get(e.id), Tup) and isinstance(s.target, (ast.Tuple, ast.List)):
+                        e = self.materialise(trial[e.id], e)        # an element that is itself a tuple we know item by item
                     if not (set(tnames) & rebound) and not (set(tnames) & self.closure_used):
                         if isinstance(s.target, ast.Name) and (is_atom(e) or is_const_lit(e)):
                             mp = {s.target.id: e}
@@ -1950,7 +2032,39 @@ class FnPE:
         vals = [self.expr(e.values[0], env, pre)]
         for v in e.values[1:]:
             vals.append(self.expr(v, env, None))
-        m.values = vals
+
+        def lit_truth(v):
+            """truth value of a display whose emptiness is written out: () [] {} "" are false, non-empty displays are true"""
+            if isinstance(v, (ast.Tuple, ast.List, ast.Set)) and not any(isinstance(x, ast.Starred) for x in v.elts):
+                return len(v.elts) > 0
+            if isinstance(v, ast.Dict) and all(k is not None for k in v.keys):
+                return len(v.keys) > 0
+            if isinstance(v, ast.Constant) and (v.value is None or isinstance(v.value, (str, bool))):
+                return bool(v.value)
+            return None
+        # `() or DEFAULT` -> DEFAULT ; `("a",) or DEFAULT` -> ("a",)   (operands without effects only)
+        out = []
+        for i, v in enumerate(vals):
+            t = lit_truth(v)
+            last = i == len(vals) - 1
+            if t is None or last:
+                out.append(v)
+                if t is None:
+                    out += vals[i + 1:]
+                break
+            if isinstance(e.op, ast.Or):
+                if t:
+                    out.append(v)
+                    break
+                continue            # a false literal in `or`: skipped
+            if not t:
+                out.append(v)
+                break
+            continue                # a true literal in `and`: skipped
+        if len(out) == 1:
+            self.stat("folds")
+            return out[0]
+        m.values = out
         return m
 
     def x_Subscript(self, e, env, pre):
@@ -1962,7 +2076,14 @@ class FnPE:
             for k, val in zip(v.keys, v.values):
                 if k.value == sl.value:
                     self.stat("folds")
+                    if isinstance(val, ast.Name) and isinstance(env.get(val.id), Con):
+                        return self.materialise(env[val.id], val)
                     return val
+            if all(is_const_lit(x) or isinstance(x, (ast.Lambda, ast.Name)) for x in v.values):
+                # a table without that key: the look-up raises KeyError (written as an expression that does just that)
+                self.stat("folds")
+                thrower = ast.parse(f"(_ for _ in ()).throw(KeyError({sl.value!r}))", mode="eval").body
+                return ast.fix_missing_locations(ast.copy_location(thrower, e))
             raise Bail("missing key")
         if is_seq_lit(v) and all(is_atom(x) for x in v.elts):
             if isinstance(sl, ast.Constant) and isinstance(sl.value, int) and -len(v.elts) <= sl.value < len(v.elts):
@@ -2171,7 +2292,8 @@ class FnPE:
             kws.append(k2)
         m = copy.copy(e)
         m.func, m.args, m.keywords = func, args, kws
-        if isinstance(func, ast.Lambda) and closed_lambda(func) and not kws and not any(isinstance(a, ast.Starred) for a in args) \
+        if isinstance(func, ast.Lambda) and closed_lambda(func, lambda nm_: nm_ not in self.rebound_names() and nm_ not in self.closure_rebound()) \
+                and not kws and not any(isinstance(a, ast.Starred) for a in args) \
                 and len(args) == len(func.args.args) and all(is_atom(a) or isinstance(a, ast.Constant) for a in args):
             # (lambda a, b: body)(x, y) with plain arguments: body with a, b replaced
             self.stat("folds")
@@ -2193,6 +2315,11 @@ class FnPE:
         f = c.func
         nargs, kws = c.args, c.keywords
         plain = not any(isinstance(a, ast.Starred) for a in nargs) and not any(k.arg is None for k in kws)
+        # np.less_equal(a, b) and friends are the comparison operators (element by element, as `a <= b` is for arrays)
+        if plain and not kws and len(nargs) == 2 and isinstance(f, ast.Attribute) and isinstance(f.value, ast.Name) and f.value.id in ("np", "numpy") \
+                and f.value.id not in self.locals and f.attr in NP_COMPARE:
+            self.stat("folds")
+            return ast.copy_location(ast.Compare(left=nargs[0], ops=[NP_COMPARE[f.attr]()], comparators=[nargs[1]]), c)
         if isinstance(f, ast.Name) and f.id not in self.locals and plain:
             if f.id == "sum" and len(nargs) == 2 and not kws and isinstance(nargs[1], ast.Tuple) and not nargs[1].elts and is_seq_lit(nargs[0]) and nargs[0].elts:
                 # sum([(a, b), (c, d)], ()) == (a, b, c, d)
@@ -2613,7 +2740,8 @@ def cleanup(body, generated, params, is_local=None):
                             mark([x for x in sub if isinstance(x, ast.stmt)] + [y for x in sub if isinstance(x, ast.ExceptHandler) for y in x.body], loop)
         scan(body, False)
         mark(body, False)
-        once = lambda nm: (stores.get(nm, 0) == 1 and nm not in params) or (nm in params and stores.get(nm, 0) == 0)
+        once = lambda nm: (stores.get(nm, 0) == 1 and nm not in params) or (nm in params and stores.get(nm, 0) == 0) \
+            or (is_local is not None and stores.get(nm, 0) == 0 and not is_local(nm))          # a module-level function / constant
         mp = {}
         dead = set()
 
@@ -2628,8 +2756,9 @@ def cleanup(body, generated, params, is_local=None):
                             mp[g] = s.value         # a field / parameter holding a literal
                         elif is_local is not None and isinstance(s.value, ast.Attribute) and _global_ref(s.value, is_local):
                             mp[g] = s.value         # a function of an imported module handed over as a value (estimator = fdd.SD_est)
-                        elif loads.get(g, 0) == 0 and (is_atom(s.value) or is_const_lit(s.value) or (isinstance(s.value, (ast.Tuple, ast.List)) and all(is_atom(x) for x in s.value.elts))):
-                            dead.add(g)
+                        elif loads.get(g, 0) == 0 and (is_atom(s.value) or is_const_lit(s.value) or isinstance(s.value, ast.Lambda)
+                                                       or (isinstance(s.value, (ast.Tuple, ast.List)) and all(is_atom(x) for x in s.value.elts))):
+                            dead.add(g)             # (making a function object has no effect either)
                     elif loads.get(g, 0) == 0 and is_atom(s.value) and not isinstance(s.value, (ast.Subscript,)):
                         dead.add(g)
                 for f in ("body", "orelse", "finalbody"):
